@@ -30,7 +30,7 @@ def oracle(ctx, seeds=None):
     for i in range(ctx.n(45, 700)):
         name = ALL[i % len(ALL)]
         model = str(rng.choice(['conv', 'euler', 'sw']))   # burgers registers no named variable to monitor
-        cfg = cfg1d.rand_config(rng, model=model, per=True, n=int(rng.integers(4, 9)), smooth=True, meshkind='uni',
+        cfg = cfg1d.rand_config(rng, units=False, model=model, per=True, n=int(rng.integers(4, 9)), smooth=True, meshkind='uni',
                                 scheme=['extrapol1'] if model != 'conv' else cfg1d.rand_scheme(rng, ['extrapol1', 'extrapol2', 'extrapol3']))
         if model == 'burgers':
             cfg['prim'] = [[float(x) for x in (2.0 + 0.4 * rng.uniform(-1, 1, cfg['n']))]]
